@@ -14,16 +14,16 @@ use ebml_iterable::tools::{self, SignedVint, Vint};
 pub static DEF: PropDef = PropDef {
     id: "C15",
     level: "exploration",
-    rule: "each case = one shard of the exhaustive value sweeps (unsigned widths <=2 quick / <=4 thorough, signed widths <=2 / <=3) + boundary lattice (+-2 around 2^(7k), 2^(7k-1), 2^(8k)) + random 64-bit values + decoder sweeps over byte slices (all slices of length <=2, every first byte x random tails x every truncation for lengths 3..9). A value/slice is counted distinct-nontrivial by (function, width, value-class) fingerprint where value-class = position relative to the nearest width boundary.",
+    rule: "each case = one shard of the exhaustive value sweeps (unsigned widths <=3 quick / <=4 thorough, signed widths <=3) + boundary lattice (+-2 around 2^(7k), 2^(7k-1), 2^(8k)) + random 64-bit values + decoder sweeps over byte slices (all slices of length <=2, every first byte x random tails x every truncation for lengths 3..9). A value/slice is counted distinct-nontrivial by (function, width, value-class) fingerprint where value-class = position relative to the nearest width boundary.",
     assumptions: &[
         "reference codec (refcodec.rs) encodes RFC 8794 vints correctly; it shares no code with the repository",
         "the single signed value -2^(7L-1) of each width is a don't-care (may be accepted or rejected; if encoded it must decode back)",
         "signed fixed-width encoder is only exercised for widths 1..8 as the property states",
     ],
-    cases_quick: 64,
-    cases_thorough: 2048,
+    cases_quick: 256,
+    cases_thorough: 2_048,
     floors: &[("unsigned_values_checked", 10_000), ("signed_values_checked", 10_000), ("slices_decoded", 50_000), ("distinct_nontrivial", 200)],
-    exhaustive_note: Some("unsigned values of width<=2 (quick) / <=4 (thorough); signed values of width<=2 / <=3; all byte slices of length<=2 for both decoders"),
+    exhaustive_note: Some("unsigned values of width<=3 (quick) / <=4 (thorough); signed values of width<=3; all byte slices of length<=2 for both decoders"),
     run,
 };
 
@@ -331,13 +331,13 @@ fn run(c: &mut Case) {
     let total = c.tier.pick(DEF.cases_quick, DEF.cases_thorough);
     let idx = c.idx;
     // ---- exhaustive shards
-    let uw = c.tier.pick(2u32, 4);
+    let uw = c.tier.pick(3u32, 4);
     let usz: u64 = 1 << (7 * uw);
     let (ulo, uhi) = (usz / total * idx, if idx + 1 == total { usz } else { usz / total * (idx + 1) });
     for v in ulo..uhi {
         check_unsigned(c, v);
     }
-    let sw = c.tier.pick(2u32, 3);
+    let sw = c.tier.pick(3u32, 3);
     let ssz: i64 = 1 << (7 * sw); // values in [-ssz/2 - 2, ssz/2 + 2)
     let span = ssz as u64 + 4;
     let (slo, shi) = (span / total * idx, if idx + 1 == total { span } else { span / total * (idx + 1) });
